@@ -52,6 +52,10 @@ def parseHdrO (s : String) : Option HdrO :=
   | [a, b] => do let n ← parseSp a; let v ← parseSp b; pure ⟨n, v⟩
   | _ => none
 
+/-- an exposed header that is a sentinel (previous content) is a header that is not from this buffer -/
+def parseHdrOExposed (s : String) : Option HdrO :=
+  if s.startsWith "s" || s == "?" then some ⟨.ext, .ext⟩ else parseHdrO s
+
 def parseSlot (s : String) : Option SlotO :=
   if s == "?" then some .unknown
   else if s.startsWith "s" then (s.drop 1).toString.toNat?.map SlotO.sent
@@ -91,7 +95,7 @@ def parseObs (k : Kind) (toks : List String) : Option Obs := do
   let st ← parseSt (toks.headD "")
   if st == .crash then
     return { st := .crash, spans := [], nums := [], viewLen := 0, viewAt := .e, hdrs := [], arrA := [], arrU := [] }
-  let hdrs ← parseListOf parseHdrO ((kv toks "h").getD "-")
+  let hdrs ← parseListOf parseHdrOExposed ((kv toks "h").getD "-")
   let arrA ← parseListOf parseSlot ((kv toks "A").getD "-")
   let arrU ← parseListOf parseSlot ((kv toks "U").getD "-")
   let (viewLen, viewAt) ← (match kv toks "view" with
@@ -208,6 +212,9 @@ def judgeMsg (k : Kind) (cfg : Config) (cap : Nat) (buf : List Byte) (real model
        "header block: status kind / reported headers differ from model"
    else []) ++
   mdl "C10" (!(real.st.isE && model.st.isE) || real.st == model.st) "error kind differs from model" ++
+  -- "TooManyHeaders is returned exactly when …": model and code must agree on WHEN it is returned
+  mdl "C10" ((real.st == .e .tooManyHeaders) == (model.st == .e .tooManyHeaders) || real.st == .crash)
+      "TooManyHeaders returned by exactly one of code and model" ++
   mdl "C17" (real.st == .crash || !kindSame ||
              (real.viewLen == model.viewLen && real.viewAt == model.viewAt &&
               (if real.st.isC then real.arrA == model.arrA else true)))
